@@ -123,10 +123,12 @@ inline int engine_main(int argc, char **argv, Engine &eng) {
             st.clear();
             Json samples = Json::array();
             long long nontrivial = 0, violations = 0;
+            uint64_t trace_digest = 0; // order-independent digest of every run's trace hash (determinism self-test)
             for (long long idx = from; idx < to; idx++) {
                 g_current_index = idx;
                 Json plan = eng.generate(root.fork((uint64_t)idx), tier);
                 Outcome o = eng.execute(plan, st);
+                trace_digest += mix64(o.trace.h ^ mix64((uint64_t)idx)) + (o.violation ? 0x9e3779b97f4a7c15ULL : 0);
                 if (o.nontrivial) { nontrivial++; st.distinct.insert(o.shape ? o.shape : o.trace.h); }
                 if (o.violation) {
                     violations++;
@@ -150,6 +152,7 @@ inline int engine_main(int argc, char **argv, Engine &eng) {
             Json d2 = Json::array(); for (auto v : st.distinct2) { char b[20]; snprintf(b, sizeof b, "%llx", (unsigned long long)v); d2.push(Json(b)); }
             r["distinct2"] = d2;
             r["samples"] = samples;
+            { char b[20]; snprintf(b, sizeof b, "%016llx", (unsigned long long)trace_digest); r["trace_digest"] = std::string(b); }
             emit(r);
         } else {
             Json r = Json::object(); r["type"] = "error"; r["what"] = "unknown cmd"; emit(r);
